@@ -46,6 +46,10 @@ type c13 struct {
 }
 
 func runC13(t *rapid.T) {
+	if simkit.Chance(t, "network", 1, 4) {
+		runC13Network(t)
+		return
+	}
 	opts := chainsim.WorldOpts{Nodes: [2]int{2, 4}, Validators: [2]int{3, 6}, ValidatorChanges: true, NetFaults: true, SmallCache: true}
 	w := chainsim.DrawWorld(t, opts)
 	defer w.Shutdown()
@@ -293,4 +297,35 @@ func (c *c13) restart(op chainsim.ChainOp, kind string, k int) {
 		return
 	}
 	t.Fatalf("infra: recovery crashed 4 times")
+}
+
+// runC13Network: the crash points inside a running network. The nodes of a whole network (forks, syncs, tie breaks,
+// validator changes, transactions) are killed or lose power at the k-th commit of one of their steps, again and again;
+// every time one comes back - and for every node at the end - the whole blockchain database must be a union of whole
+// steps (Monitor.Integrity) and the consensus state must be the one of the tip (checkBFT, C02's reference).
+func runC13Network(t *rapid.T) {
+	runHonest(t, runCfg{prop: "C13", opts: chainsim.WorldOpts{Nodes: [2]int{2, 4}, Transactions: true, Validators: [2]int{3, 7}, ValidatorChanges: true, NetFaults: true, RPCFaults: true, SmallCache: true},
+		faults: chainsim.FaultPlan{Partitions: true, Crashes: true}, blocks: [2]int{10, 70},
+		tail: func(w *chainsim.World, m *chainsim.Monitor, adv *chainsim.Adversary) {
+			for _, n := range w.S.Nodes {
+				if n.Up && !n.IsAdversary {
+					m.Integrity(n, "at-end")
+				}
+			}
+			m.Raise()
+		}},
+		func(w *chainsim.World, m *chainsim.Monitor) {
+			m.Enabled["C02"] = true
+			every := time.Duration(simkit.Int(t, "killevery", 3, 12)) * w.BlockTime
+			var tick func()
+			tick = func() {
+				n := w.S.Nodes[simkit.Int(t, "killnode", 0, len(w.S.Nodes)-1)]
+				if n.Up && !n.IsAdversary {
+					w.KillInsideNextSteps(n, simkit.Int(t, "killcommit", 1, 12), -1, simkit.Bool(t, "killpower"), time.Duration(simkit.Int(t, "killdown", 1, 6))*w.BlockTime)
+					simkit.Fault("kill_armed_at_kth_commit_of_a_step")
+				}
+				w.S.At(every, "c13 kill", tick)
+			}
+			w.S.At(every, "c13 kill", tick)
+		})
 }
